@@ -3,9 +3,10 @@
    labelled with the removed component, whatever the archetype graph looked like (this is the
    statement that was false on the pinned tree); and the archetype-level removal restores the
    whole storage invariant, removing exactly the archetypes with the component and exactly
-   their entities, given that member_of lists exactly those archetypes (that premise is audited
-   on the implementation's snapshot after every call by the check, and compared with the model's
-   member_of lists).  Phases and notifications are checked by the correspondence. *)
+   their entities, given that member_of lists exactly those archetypes; that premise is itself an
+   invariant of every reachable world (KInv, Member.v), so World::remove_component as a whole
+   leaves a world satisfying the full invariant (last two theorems).  Phases and notifications
+   are checked by the correspondence. *)
 From Coq Require Import List NArith.
 Require Import EV.Base EV.World EV.ArchProofs.
 
@@ -32,3 +33,20 @@ Theorem c14_archetype_removal_leaves_a_consistent_world :
     (forall k, ~ In k (removed_rows w member_of) -> sm_get k (w_ents w') = sm_get k (w_ents w) /\ forall c, abs w' k c = abs w k c).
 Proof. exact archs_remove_component_ok. Qed.
 Print Assumptions c14_archetype_removal_leaves_a_consistent_world.
+
+Require Import EV.WorldFrame EV.Reach EV.Member.
+
+(* World::remove_component on a consistent world - whatever the handlers of RemoveComponent / Despawn /
+   RemoveHandler / RemoveTargetedEvent do, whether or not one of them panics - leaves a consistent world *)
+Theorem c14_remove_component_leaves_a_usable_world :
+  forall (beh : hinfo -> logent -> N -> script) (k : key) (w : world),
+    FInv w -> FInv (res_world (remove_component beh k w)).
+Proof. exact remove_component_FInv. Qed.
+Print Assumptions c14_remove_component_leaves_a_usable_world.
+
+(* and so does every later call: the invariant is an invariant of all calls *)
+Theorem c14_world_stays_usable_afterwards :
+  forall (beh : hinfo -> logent -> N -> script) (fuel p : N) (ops : list top_all),
+    FInv (fold_left (run_top_all beh) ops (world0 fuel p)).
+Proof. exact reachable_FInv. Qed.
+Print Assumptions c14_world_stays_usable_afterwards.
